@@ -50,10 +50,10 @@ def input_for(mname, model, which=0):
 SAME = {}       # model name -> the template object a history operation worked on in place (route "same_object")
 
 OPS = ["compile", "compile_vec", "compile_noclear", "run", "run_noclear", "jacobian", "yaml", "update_var", "clear", "clear_frontend",
-       "yaml_update_run_clear", "compile_inputs_noclear", "compile_decorator", "update_var_shared", "run_user_ops", "yaml_edge_update_clear", "yaml_derive_edge_update", "run_inplace_keep"]
+       "yaml_update_run_clear", "compile_inputs_noclear", "compile_decorator", "update_var_shared", "run_user_ops", "yaml_edge_update_clear", "yaml_derive_edge_update", "run_inplace_keep", "run_inplace_keep_vec"]
 UNCLEARED = ("compile_noclear", "run_noclear", "compile_inputs_noclear")
 CLEARING = ("compile", "compile_vec", "run", "jacobian", "yaml", "update_var", "update_var_shared", "clear", "yaml_update_run_clear",
-            "compile_decorator", "run_user_ops", "yaml_edge_update_clear", "yaml_derive_edge_update", "run_inplace_keep")
+            "compile_decorator", "run_user_ops", "yaml_edge_update_clear", "yaml_derive_edge_update", "run_inplace_keep", "run_inplace_keep_vec")
 
 
 def negate(f):
@@ -138,11 +138,11 @@ def do_op(op, mname, model, keep):
             derived.update_var(edge_vars=[(src, tgt, {"weight": 10.0})])
             derived.run(simulation_time=0.2, step_size=0.05, solver="euler", outputs={"o": mdl.state_vars(model)[0]}, vectorize=True, verbose=False,
                         clear=True, in_place=True, float_precision="float64")      # (run's own clear=True; the loader's cache is kept on purpose)
-    elif op == "run_inplace_keep":
-        # an in-place simulation (default clear=True) on a template object that is used again afterwards
+    elif op in ("run_inplace_keep", "run_inplace_keep_vec"):
+        # an in-place simulation (default clear=True) on a template object that is used again afterwards (also with the OTHER vectorize setting)
         tpl = SAME.get(mname) or mdl.build_templates(model)
         SAME[mname] = tpl
-        tpl.run(simulation_time=0.3, step_size=0.05, solver="euler", outputs={"o": mdl.state_vars(model)[0]}, vectorize=False, verbose=False,
+        tpl.run(simulation_time=0.3, step_size=0.05, solver="euler", outputs={"o": mdl.state_vars(model)[0]}, vectorize=op.endswith("_vec"), verbose=False,
                 clear=True, in_place=True, float_precision="float64")
     elif op == "compile_inputs_noclear":
         tpl = mdl.build_templates(model)
@@ -262,6 +262,10 @@ def families(tier, seed):
         if m[0] in "ABCDE":
             out.append(dict(tag=f"T-yaml-derive-edge-{m[0]}", features=features_of([("yaml_derive_edge_update", m)], m),
                             history=[("yaml_derive_edge_update", m)], target=m, vec=False, seed=seed, route="yaml"))
+        for vecs in ((True, False), (False, True)):
+            h = [("run_inplace_keep_vec" if vecs[0] else "run_inplace_keep", m)]
+            out.append(dict(tag=f"T-same-object-other-vectorize-{'vs' if vecs[0] else 'sv'}-{m[0]}", features=features_of(h, m), history=h, target=m,
+                            vec=vecs[1], seed=seed, route="same_object"))
         for reps in (1, 2):
             h = [("run_inplace_keep", m)] * reps
             out.append(dict(tag=f"T-same-object-after-{reps}-runs-{m[0]}", features=features_of(h, m), history=h, target=m, vec=False, seed=seed,
